@@ -226,34 +226,69 @@ def shard(cases, n):
     if cur: shards.append(cur)
     return shards
 
-def run_exe(cmd, cases, timeout=600):
+def _run_watched(cmd, data, timeout, stall):
+    """one process over the input; (complete output lines, status) with status 'ok', 'abort' (it died),
+    'hang' (no further output line for `stall` seconds, or the overall limit hit: killed)"""
+    import threading, queue
+    p = subprocess.Popen(cmd, stdin=subprocess.PIPE, stdout=subprocess.PIPE, stderr=subprocess.DEVNULL)
+    def feed():
+        try: p.stdin.write(data); p.stdin.close()
+        except OSError: pass
+    threading.Thread(target=feed, daemon=True).start()
+    q = queue.Queue()
+    def read():
+        for raw in p.stdout: q.put(raw)
+        q.put(None)
+    threading.Thread(target=read, daemon=True).start()
+    lines, t0, status = [], time.time(), 'ok'
+    while True:
+        try:
+            raw = q.get(timeout=stall)
+        except queue.Empty:
+            status = 'hang'; break
+        if raw is None: break
+        if raw.endswith(b'\n'): lines.append(raw[:-1].decode('latin-1'))     # a partial last line is dropped
+        if time.time() - t0 > timeout:
+            status = 'hang'; break
+    if status == 'hang':
+        p.kill()
+    p.wait()
+    return lines, status
+
+HANGS = [0]      # calls of the implementation that did not return, in this process
+
+def run_exe(cmd, cases, timeout=600, stall=None):
     """Run one executable over the cases, sharded over the cores.  Returns one output line per
     case; a crash or hang of the process is turned into `(k c8)` (hang) / `(k c7)` (abort) at
-    the case where the output stops, and the remaining cases are run in a fresh process."""
+    the case where the output stops, and the remaining cases are run in a fresh process.  A hang is
+    recognised by the output standing still (`stall` seconds; both executables flush one line per case),
+    so a non-terminating call costs seconds, not the overall limit; after three hangs in a shard the rest
+    of the shard is not run any more and reported as hung."""
+    stall = stall or timeout
     def one(sh_cases):
-        outs, rest = [], sh_cases
+        outs, rest, hangs = [], sh_cases, 0
         while rest:
+            if HANGS[0] >= 8:
+                # this run has seen enough calls that do not return: the rest is reported as not run (the hangs
+                # already recorded decide the verdict; waiting out more of them only costs time)
+                outs += ['(k c8)'] * len(rest); break
             data = ('\n'.join(rest) + '\n').encode()
-            try:
-                p = subprocess.run(cmd, input=data, stdout=subprocess.PIPE, stderr=subprocess.DEVNULL, timeout=timeout)
-                lines = p.stdout.decode('latin-1').split('\n')
-                if lines and lines[-1] == '': lines.pop()
-                code = '(k c7)'
-            except subprocess.TimeoutExpired as e:
-                lines = (e.stdout or b'').decode('latin-1').split('\n')
-                if lines and lines[-1] == '': lines.pop()
-                elif lines: lines.pop()       # partial last line
-                code = '(k c8)'
+            lines, status = _run_watched(cmd, data, timeout, stall if HANGS[0] == 0 else min(stall, 12))
+            if status == 'hang': HANGS[0] += 1
             if len(lines) >= len(rest):
                 outs += lines[:len(rest)]
                 break
             outs += lines
-            outs.append(code)                 # the case at which the process stopped
+            outs.append('(k c8)' if status == 'hang' else '(k c7)')     # the case at which the process stopped
             done = len(lines) + 1
             # parser state is lost with the process: re-run the rest of an interrupted history
             # from a fresh parser (the model is not restarted, so later steps may differ; the
             # crash itself is already a violation)
             rest = rest[done:]
+            if status == 'hang':
+                hangs += 1
+                if hangs >= 3:
+                    outs += ['(k c8)'] * len(rest); break
         return outs
     shards = shard(cases, NCPU)
     with ThreadPoolExecutor(max_workers=NCPU) as ex:
@@ -261,7 +296,9 @@ def run_exe(cmd, cases, timeout=600):
     return [l for r in res for l in r]
 
 def run_impl(cases, feat='std', profile='debug', timeout=600):
-    return run_exe([build_harness(feat, profile)], cases, timeout)
+    # the harness answers every case within milliseconds (a two-byte sweep within a second or two): 45 s of
+    # silence is a call that does not return
+    return run_exe([build_harness(feat, profile)], cases, timeout, stall=45)
 
 def run_model(cases, feat='std', quirks='asis', timeout=600):
     return run_exe([build_driver(), feat, quirks], cases, timeout)
